@@ -238,6 +238,69 @@ def run(ck: Check, prog: Program) -> None:
     if not okd:
         ck.finding('REQ-DEFAULT', bpm.qualname, 'required/default mapping', bpm.module.rel, bpm.node.lineno,
                    f'a field must be required (…) iff the parameter has no default, and carry the default otherwise; found: {whyd}')
+    # REQ-SOURCE: OpenRPC re-packs the params schema into content descriptors: `required` of each descriptor must be membership of
+    # that parameter's name in the SAME schema's `required` list (which the model builder derives from "has no default")
+    orp = prog.cls(OPENRPC).methods.get('_extract_params_schema')
+    if orp is None:
+        raise AnalysisError('OpenRPC._extract_params_schema not found')
+    ck.functions.add(orp.qualname)
+    from ..flow import Flow as _Fl
+    cfg_o = _CFG(orp, prog)
+    fl_o = _Fl(cfg_o)
+    n_desc = 0
+    for n_ in cfg_o.stmt_nodes():
+        for c_ in calls_in(n_):
+            if dotted(c_.func) != 'ContentDescriptor':
+                continue
+            kws = {kw.arg: kw.value for kw in c_.keywords if kw.arg}
+            if 'required' not in kws or 'name' not in kws:
+                continue
+            n_desc += 1
+            rq = kws['required']
+            # the comprehension / loop this descriptor is built in
+            it_map = None
+            key_var = None
+            for x in walk_own(orp.node):
+                gens = x.generators if isinstance(x, (ast.ListComp, ast.GeneratorExp)) else []
+                for g_ in gens:
+                    if any(y is c_ for y in ast.walk(x)) and isinstance(g_.iter, ast.Call) and isinstance(g_.iter.func, ast.Attribute) and \
+                            g_.iter.func.attr == 'items' and isinstance(g_.target, ast.Tuple):
+                        src = g_.iter.func.value
+                        if isinstance(src, ast.Call) and isinstance(src.func, ast.Attribute) and src.func.attr == 'get' and src.args and \
+                                isinstance(src.args[0], ast.Constant) and src.args[0].value == 'properties':
+                            it_map = dotted(src.func.value)
+                        elif isinstance(src, ast.Subscript) and isinstance(src.slice, ast.Constant) and src.slice.value == 'properties':
+                            it_map = dotted(src.value)
+                        key_var = dotted(g_.target.elts[0])
+                if isinstance(x, (ast.For, ast.AsyncFor)) and any(y is c_ for b_ in x.body for y in ast.walk(b_)) and \
+                        isinstance(x.iter, ast.Call) and isinstance(x.iter.func, ast.Attribute) and x.iter.func.attr == 'items' and isinstance(x.target, ast.Tuple):
+                    src = x.iter.func.value
+                    if isinstance(src, ast.Call) and isinstance(src.func, ast.Attribute) and src.func.attr == 'get' and src.args and \
+                            isinstance(src.args[0], ast.Constant) and src.args[0].value == 'properties':
+                        it_map = dotted(src.func.value)
+                    key_var = dotted(x.target.elts[0])
+            okq = False
+            leafs = [al.expr for al in fl_o.alts(n_, rq)]
+            if it_map and key_var and len(leafs) == 1 and isinstance(leafs[0], ast.Compare) and len(leafs[0].ops) == 1 and \
+                    isinstance(leafs[0].ops[0], ast.In) and dotted(leafs[0].left) == key_var:
+                cmpv = leafs[0].comparators[0]
+                cands = [b_.expr for b_ in fl_o.alts(n_, cmpv)] if isinstance(cmpv, ast.Name) else [cmpv]
+                for cv in cands:
+                    if isinstance(cv, ast.Call) and isinstance(cv.func, ast.Attribute) and cv.func.attr == 'get' and cv.args and \
+                            isinstance(cv.args[0], ast.Constant) and cv.args[0].value == 'required' and dotted(cv.func.value) == it_map:
+                        okq = True
+                    elif isinstance(cv, ast.Subscript) and isinstance(cv.slice, ast.Constant) and cv.slice.value == 'required' and dotted(cv.value) == it_map:
+                        okq = True
+            if dotted(kws['name']) != key_var:
+                okq = False
+            ck.ob('REQ-SOURCE', 'OpenRPC content descriptors: required ⇔ the parameter name is in the params schema\'s `required` list', okq,
+                  sample={'required': norm(rq)[:80]})
+            if not okq:
+                ck.finding('REQ-SOURCE', orp.qualname, f'required={norm(rq)[:50]}', orp.module.rel, c_.lineno,
+                           f'`required={norm(rq)}`: a parameter must be documented as required exactly when its name is listed in the `required` '
+                           f'member of the same params schema (derived from "has no default"); any other source (presence of a `default` key, '
+                           f'nullability, ...) disagrees with what the dispatcher binds for defaults that cannot be rendered')
+    ck.require('REQ-SOURCE', 'content descriptors built from the extracted params schema', n_desc, 1)
     # "a request that adds an unlisted name is always refused": the binder must see the params exactly as sent
     from .c04 import _ctx_rules
     for b in bind_methods(prog):
